@@ -261,6 +261,7 @@ def generate(rng, prop, tier):
     # pre-emption inside module bodies of imports made by the threads (cooperative import locks)
     preempt_imports = rng.random() < {"T5": 0.7, "T1": 0.25, "T2": 0.25, "T6": 0.25, "T11": 1.0}.get(t, 0.1)
     cfg = {"target": t, "params": params, "threads": threads, "strategy": strategy, "sparams": sparams, "preempt_imports": preempt_imports,
+           "crypt_lacks": t in ("T1", "T2", "T5", "T6", "T9", "T10", "T11") and rng.random() < 0.3,
            "opcode_hot": tier == "thorough" and rng.random() < 0.3, "seed": rng.getrandbits(32)}
     return {"cfg": cfg, "ops": []}
 
@@ -268,6 +269,8 @@ def generate(rng, prop, tier):
 def simplify_cfg(cfg):
     out = []
     th = cfg["threads"]
+    if cfg.get("crypt_lacks"):
+        out.append(dict(cfg, crypt_lacks=False))
     if len(th) > 2:
         for i in range(len(th)):
             c = dict(cfg)
@@ -343,6 +346,11 @@ def build_env(cfg):
     t = cfg["target"]
     p = cfg["params"]
     env = {"target": t}
+    if cfg.get("crypt_lacks"):
+        # the whole process runs on a host whose crypt(3) knows none of the formats (see T3)
+        from simkit.seams import SimCrypt
+
+        SimCrypt().install().lost.add("")
     with warnings.catch_warnings():
         warnings.simplefilter("ignore")
         if t == "T1":
@@ -829,7 +837,7 @@ def execute(program, ctx):
                           lambda: f"{tgt}: thread {ti} call {call} returned {got[1]!r}; a single thread gets {want}; "
                                   f"switches={sched.switch_sites[:12]}",
                           target=kind, exc="wrong-value", func=call[0])
-    if cfg["target"] == "T3" and cfg["params"].get("crypt_lacks"):
+    if cfg.get("crypt_lacks") or (cfg["target"] == "T3" and cfg["params"].get("crypt_lacks")):
         ctx.fault("first_backend_candidate_unusable")
     if fail_once:
         ctx.fault("first_initialisation_fails")
